@@ -20,6 +20,10 @@ Inductive c20_case :=
 (* one pure watch on an etcd stream of a leader, ended by a client cancel request or by the stream:
    how many Canceled responses with CompactRevision = 0 the server sent for its watch id *)
 | KCancel (client_cancelled : bool) (canceled_responses : N)
+(* on one stream: a cancel request for an id that was never created and a second cancel request for a watch that
+   has been cancelled already: Canceled responses they caused, and whether a watch created afterwards on the same
+   stream was answered *)
+| KCancelUnknown (responses : N) (still_usable : bool)
 (* the translator's structural check of the wrapper's own label path (Emit* -> labelsToMap /
    extractLabelNames -> With): names and values are handed on unchanged *)
 | KPath (identity : bool).
@@ -70,6 +74,7 @@ Definition c20_check (t : list row) (c : c20_case) : bool :=
          resolved (C04) and the hub keeps delivering to the other watchers (C05, cited in Props/C20.v) *)
       health && progress
   | KCancel cc n => n =? watch_cancel_responses true cc
+  | KCancelUnknown n usable => (n =? unknown_cancel_responses) && usable
   | KPath identity => identity     (* Model/Metrics.labels_to_map / label_names hand names and values on unchanged *)
   end.
 
@@ -88,12 +93,8 @@ Definition c20_oracle (gn : option (list str)) (t : list row) (c : c20_case) : o
       end
   | KReq _ o _ health progress _ _ =>
       ok_if (match o with OResp | OErr => true | _ => false end && health && progress)
-  | KCancel _ n =>
-      (* etcd protocol: one Canceled response per watch.  A second one makes etcd clientv3 v3.5.2 close the
-         substream's channel twice (`close of closed channel`, watch.go:605) when it arrives while the substream is
-         still registered: inside a follower that forwards watches through its etcd proxy this kills the node —
-         finding C20-F1; this case is its deterministic signature *)
-      ok_or (n <=? 1) 1
+  | KCancel _ n => ok_if (n =? 1)      (* etcd protocol: exactly one Canceled response per watch (C20-F1, fixed) *)
+  | KCancelUnknown n usable => ok_if ((n =? 0) && usable)
   | KPath identity => ok_if identity
   end.
 
@@ -102,14 +103,12 @@ Definition c20_oracle (gn : option (list str)) (t : list row) (c : c20_case) : o
      program's global label names with valid values;
    - request cases: every request of a modelled kind is valid (all constructors of [request]); what the probes
      saw is part of the observation, compared with the model's prediction by c20_check;
-   - KCancel: the watch was not cancelled by the client (a client cancel is the signature of finding C20-F1);
-   - KSeq / KPath: no assumption. *)
+   - KSeq / KCancel / KCancelUnknown / KPath: no assumption. *)
 Definition c20_valid (gn : option (list str)) (t : list row) (c : c20_case) : Prop :=
   match c with
   | KRows g _ _ _ =>
       exists gn', gn = Some gn' /\ map fst g = gn' /\ Forall (fun v => valid_utf8 v = true) (map snd g) /\ check gn' t = true
   | KRow _ _ _ => check_program gn t = true
-  | KCancel cc _ => cc = false
   | _ => True
   end.
 
@@ -121,7 +120,6 @@ Definition c20_validb (gn : option (list str)) (t : list row) (c : c20_case) : b
       | None => false
       end
   | KRow _ _ _ => check_program gn t
-  | KCancel cc _ => negb cc
   | _ => true
   end.
 
